@@ -553,7 +553,8 @@ macro_rules! for_cast_types {
             (u32x5, BUintD32<5>), (i32x5, BIntD32<5>),
             (u64x1, BUint<1>), (i64x1, BInt<1>), (u64x2, BUint<2>), (i64x2, BInt<2>),
             (u64x3, BUint<3>), (i64x3, BInt<3>),
-            (u64x5, BUint<5>), (i64x5, BInt<5>), (u32x10, BUintD32<10>), (i32x10, BIntD32<10>), (u8x33, BUintD8<33>), (i8x33, BIntD8<33>)
+            (u64x5, BUint<5>), (i64x5, BInt<5>), (u32x10, BUintD32<10>), (i32x10, BIntD32<10>), (u8x33, BUintD8<33>), (i8x33, BIntD8<33>),
+            (u8x260, BUintD8<260>), (i8x260, BIntD8<260>)
         }
     };
 }
